@@ -89,6 +89,9 @@ func Lib() *ty.Env {
 	xo := add("XO", "ext", ty.St(f("A", b("int")), f("B", ty.Sl(b("string")))), false) // 44
 	e.Decls[xo].Under.Blanks = map[int]string{1: "struct{}"}
 	add("XU", "ext", ty.St(f("ünicode", ty.Sl(b("int"))), f("名前", b("string")), f("Ünicode", b("int"))), true) // 45
+	// a named uint64 (the hash of such a field needs a conversion: F65), as a field, a map key and an element
+	add("NU64", "", b("uint64"), false)                                                                         // 46
+	add("SU", "", ty.St(f("A", ty.N(46)), f("M", ty.M(ty.N(46), b("string"))), f("L", ty.Sl(ty.N(46)))), false) // 47
 	return e
 }
 
@@ -227,6 +230,7 @@ func NewCorpusEnv(env *ty.Env, rng *rand.Rand, thorough bool, n2, extra int) *Co
 		ty.Sl(ty.P(ty.N(2))), ty.Sl(ty.Sl(ty.N(2))), ty.P(ty.St(ty.F("T", ty.N(2)), ty.F("S", ty.Sl(ty.B("string"))))),
 		ty.P(ty.St(ty.F("U", ty.B("uint64")), ty.F("V", ty.B("uint8")), ty.F("W", ty.M(ty.B("uint64"), ty.B("bool"))))),
 		ty.M(ty.B("bool"), ty.Sl(ty.B("string"))),
+		ty.P(ty.N(47)), ty.Sl(ty.N(46)),
 	} {
 		add(t)
 	}
